@@ -148,4 +148,7 @@ def addTruncTPQF (fu : TruncFuel) (m : Mode) (p : TPQ) (t : Trunc) : Option TPQ 
 
 def addTruncTPQ (m : Mode) (p : TPQ) (t : Trunc) : Option TPQ := addTruncTPQF stdTruncFuel m p t
 
+/-- `truncated + full` on rational-slot points with the hour-24 target read as 0 (repair F21). -/
+def addTruncTPQ24 (m : Mode) (p : TPQ) (t : Trunc) : Option TPQ := addTruncTPQ m p t.norm24
+
 end IsoDT.Model
